@@ -181,7 +181,10 @@ func (mv *MessageView) SnapshotResponse(res *http.Response) error {
 	mv.traileroffset = int64(buf.Len())
 
 	ct := res.Header.Get("Content-Type")
-	if mv.skipBody && !mv.matchContentType(ct) || res.Body == nil {
+	// A response to a HEAD request has no body, whatever framing its header
+	// fields describe.
+	head := res.Request != nil && res.Request.Method == "HEAD"
+	if mv.skipBody && !mv.matchContentType(ct) || res.Body == nil || head {
 		mv.message = buf.Bytes()
 		return nil
 	}
